@@ -698,7 +698,7 @@ JsonValue* JsonArray::LookupElementWithIter(JsonPointer::Iterator *iterator) {
   }
 
   unsigned int index;
-  if (!StringToInt(**iterator, &index, true)) {
+  if (!JsonPointer::TokenToIndex(**iterator, &index)) {
     (*iterator)++;
     return NULL;
   }
